@@ -212,7 +212,7 @@ def run(prop, tier, seed):
         mc = MC_CFG % {"maxreq": 3 if quick else 4, "maxnow": 3 if quick else 4, "lag": "FALSE", "roles": '"leader"', "mrc": 0, "aofdelay": 100,
                        "lockflags": '"show", "update", "showupdate", "conc", "prio"'}
         r = vtlc.run_tlc(os.path.join(VERIF, "spec"), "LockEngine", mc, os.path.join(wd, "mc"), workers=engine.NCPU,
-                         timeout=300 if quick else 2400)
+                         timeout=900 if quick else 3600)
         st = vtlc.parse_stats(r["out"])
         if st is None or "No error has been found" not in r["out"]:
             raise InfraError("LockEngine exhaustive check did not complete cleanly (design model, not a verdict on the code):\n" + r["out"][-3000:])
@@ -320,5 +320,34 @@ def run(prop, tier, seed):
             "millisecond timers run on the real clock (engine RT): only the lower bound (measured from the send stamp of the request that set the terms; 50 ms tolerance for grants from the queue) and eventual firing are judged, as the statement says",
         ]
         return out
+    finally:
+        shutil.rmtree(wd, ignore_errors=True)
+
+
+def replay(prop, path):
+    """bin/check Cxx --replay <file>: re-run the stored history on the real code and judge it with the monitor."""
+    with open(path) as fh:
+        rec = json.load(fh)
+    sc = rec.get("replay")
+    if not sc:
+        print("replay file carries no scenario")
+        return 2
+    wd = vbuild.scratch(f"vf_replay_{prop}_")
+    try:
+        binp = vbuild.build_inpkg("server", wd)
+        conc = any(st.get("op") in ("par", "fine") for st in sc["steps"])
+        rt = sc["name"].startswith("rt-")
+        test = "TestVerifRT" if rt else ("TestVerifC" if conc else "TestVerifS")
+        res = engine.run_harness(binp, test, [sc], os.path.join(wd, "run"), nshards=1)
+        if res[0][2] is not None:
+            print("harness died:\n" + res[0][2].stdout[-2000:])
+            return 2
+        viols, _ = engine.monitor_traces("MonLock", [res[0][1]], [prop], os.path.join(wd, "mon"))
+        for v in viols:
+            print("VIOLATION property=%s replay=%s" % (prop, path))
+            print("  " + json.dumps({k: v[k] for k in v if k != "file"})[:800])
+        if not viols:
+            print("no violation of %s on this history" % prop)
+        return 1 if viols else 0
     finally:
         shutil.rmtree(wd, ignore_errors=True)
